@@ -1,6 +1,9 @@
 // Positive example for the C12 rules: deliberately broken index classes carrying the library's qualified names.
 // Never part of /repo, never executed; the rules must report it on every run.
 #include <algorithm>
+#include <fcntl.h>
+#include <sys/mman.h>
+#include <unistd.h>
 #include <cstddef>
 #include <cstdint>
 #include <limits>
@@ -286,5 +289,44 @@ using map_t = osmium::index::map::Map<uint64_t, osmium::Location>;
 template class NodeLocationsForWays<map_t, map_t>;
 
 } // namespace handler
+
+} // namespace osmium
+
+// O1: the index file is truncated when it is re-opened; M1: the file is grown with the old size, and only after the new size is mapped
+namespace osmium {
+
+namespace index { namespace detail {
+
+template <typename T>
+inline T* create_map_with_fd(const char* filename) {
+    const int fd = ::open(filename, O_CREAT | O_RDWR | O_TRUNC, 0644);
+    if (fd == -1) {
+        throw osmium::not_found{"open"};
+    }
+    return new T{fd};
+}
+
+struct fd_map { explicit fd_map(int) {} };
+template fd_map* create_map_with_fd<fd_map>(const char*);
+
+}} // namespace index::detail
+
+class MemoryMapping {
+    std::size_t m_size = 0;
+    off_t m_offset = 0;
+    int m_fd = 0;
+    void* m_addr = nullptr;
+    void resize_fd(int fd) const {
+        if (::ftruncate(fd, static_cast<off_t>(m_size + m_offset)) != 0) {
+            throw osmium::not_found{"ftruncate"};
+        }
+    }
+public:
+    void resize(std::size_t new_size) {
+        resize_fd(m_fd);
+        m_size = new_size;
+        m_addr = ::mmap(nullptr, new_size, PROT_READ, MAP_SHARED, m_fd, m_offset);
+    }
+};
 
 } // namespace osmium
